@@ -14,7 +14,7 @@ rsync -a --exclude .git "${VERIF_REPO_SRC:-/repo}"/ "$scratch"/
 ( cd "$scratch"/v4 && go build ./... ) || { echo "does not compile"; exit 3; }
 run() {
   p=$1
-  out=$(/verif/bin/vcgen -repo "$2" -prop $p -no-witness 2>&1); rc=$?
+  out=$(${VCGEN_BIN:-/verif/bin/vcgen} -repo "$2" -verif ${VERIF_DIR:-/verif} -prop $p -no-witness 2>&1); rc=$?
   v=$(echo "$out" | grep -m1 '^VIOLATION' | sed 's/.*obligation=//')
   n=$(echo "$out" | grep -c '^VIOLATION')
   echo "$p rc=$rc violations=$n first=[$v]"
